@@ -26,6 +26,17 @@ Module KwRef.
 End KwRef.
 Export KwRef.
 
+(* ---- the documented character classes (reference for the T tie Gen/LexClasses.v) ---- *)
+Definition ref_letter (r : rune) : bool := in_rng 97 122 r || in_rng 65 90 r || N.eqb r 95.   (* a-z A-Z _ *)
+Definition ref_decimal (r : rune) : bool := in_rng 48 57 r.                                     (* 0-9 *)
+Definition ref_digit (r : rune) : bool := ref_decimal r || N.eqb r 46.                          (* 0-9 . *)
+Definition ref_hex (r : rune) : bool := in_rng 48 57 r || in_rng 97 102 r || in_rng 65 70 r.    (* 0-9 a-f A-F *)
+Definition ref_delim (r : rune) : bool := ref_letter r || ref_decimal r.                        (* a-z A-Z _ 0-9 *)
+Definition ref_space (r : rune) : bool := N.eqb r 32 || N.eqb r 9 || N.eqb r 13.                (* blank, tab, CR *)
+Definition ref_in_string (r : rune) : bool := negb (N.eqb r 34) && negb (N.eqb r 0).            (* up to the quote or the end *)
+Definition ref_ident_cont (r : rune) : bool :=                                                  (* - . : * 0-9 *)
+  N.eqb r 45 || N.eqb r 46 || N.eqb r 58 || N.eqb r 42 || ref_decimal r.
+
 (* ---- positions, defined on the decoded input alone ----
    The input is read as the rune sequence Go's decoder yields (Utf8.dec_all: U+FFFD, one byte,
    for every ill-formed sequence).  Lines and columns are 1-based; the column counts runes;
